@@ -27,6 +27,7 @@ type cTy struct {
 	nul    bool   // arr: items nullable
 	item   *cTy
 	fields []cField
+	closed bool // obj: additionalProperties: false
 	// validation keywords (only generated for the C03 stream): integer bounds and multipleOf, string length in
 	// code points / item count
 	imin, imax   *int64
@@ -105,7 +106,7 @@ func genCTy(rng *lp.Rand, depth int, wantObj bool) *cTy {
 	}
 	n := 1 + rng.Intn(5)
 	seen := map[string]bool{}
-	t := &cTy{kind: "obj"}
+	t := &cTy{kind: "obj", closed: rng.Chance(30)}
 	for len(t.fields) < n {
 		name := lp.Pick(rng, cNames)
 		if seen[name] {
@@ -170,6 +171,9 @@ func (t *cTy) schema(nullable bool) map[string]any {
 		if req != nil {
 			m["required"] = req
 		}
+		if t.closed {
+			m["additionalProperties"] = false
+		}
 	}
 	if nullable {
 		m["nullable"] = true
@@ -207,7 +211,7 @@ func (t *cTy) toks(sb *strings.Builder) {
 		fmt.Fprintf(sb, "A%d%s ", b2i(t.nul), lenK())
 		t.item.toks(sb)
 	default:
-		fmt.Fprintf(sb, "O%d ", len(t.fields))
+		fmt.Fprintf(sb, "O%d:%d ", len(t.fields), b2i(t.closed))
 		for _, f := range t.fields {
 			fmt.Fprintf(sb, "F%d%d%x ", b2i(f.req), b2i(f.nul), f.name)
 			f.ty.toks(sb)
@@ -326,7 +330,11 @@ func cMutate(rng *lp.Rand, j *J) *J {
 	case 1:
 		*x = J{kind: "null"}
 	case 2: // another kind
-		repl := []*J{{kind: "num", raw: "3"}, {kind: "str", s: "x"}, {kind: "bool", b: true}, {kind: "arr"}, {kind: "obj"}, {kind: "arr", arr: []*J{{kind: "null"}}}}
+		repl := []*J{{kind: "num", raw: "3"}, {kind: "str", s: "x"}, {kind: "bool", b: true}, {kind: "arr"}, {kind: "obj"}, {kind: "arr", arr: []*J{{kind: "null"}}},
+			// number literals no integer decoder takes: a fraction or exponent part, a value beyond 64 bits
+			{kind: "num", raw: "1.0"}, {kind: "num", raw: "1.5"}, {kind: "num", raw: "1e2"}, {kind: "num", raw: "2E0"}, {kind: "num", raw: "-0.0"},
+			{kind: "num", raw: "9223372036854775808"}, {kind: "num", raw: "-9223372036854775809"}, {kind: "num", raw: "123456789012345678901234567890"},
+			{kind: "num", raw: "9223372036854775807"}, {kind: "num", raw: "-9223372036854775808"}}
 		*x = *lp.Pick(rng, repl)
 	case 3: // a null item / member value inside a collection
 		if x.kind == "arr" {
@@ -369,7 +377,12 @@ func cloneJ(j *J) *J {
 func (t *cTy) valid(j *J) bool {
 	switch t.kind {
 	case "int":
-		return j.kind == "num"
+		// an integer literal (no fraction, no exponent) within 64 bits
+		if j.kind != "num" || strings.ContainsAny(j.raw, ".eE") {
+			return false
+		}
+		n, ok := new(big.Int).SetString(j.raw, 10)
+		return ok && n.IsInt64()
 	case "str":
 		return j.kind == "str"
 	case "bool":
@@ -391,6 +404,17 @@ func (t *cTy) valid(j *J) bool {
 	}
 	if j.kind != "obj" {
 		return false
+	}
+	if t.closed {
+		for _, k := range j.keys {
+			known := false
+			for _, f := range t.fields {
+				known = known || f.name == k
+			}
+			if !known {
+				return false
+			}
+		}
 	}
 	for _, f := range t.fields {
 		var v *J
